@@ -51,6 +51,46 @@ CLAIMED = {
             "two-step sequences, r in {1.42,1.5,1.75,2,3}, n <= 30).",
             "bounded universe (3x3 die, <=2 regions; random dies to 12x12); dies with no refinable region excluded; 7 embeddings",
             "DESIGN.md 4 (C11)", ["Geometry", "DieOps", "Die", "DieMC", "DieTrace"]),
+    "C06": ("TLA+ spec Stog (declarative STOG definition + transcription of create_stog/find_location + list-editing state machine) "
+            "model-checked by TLC; every TLC-emitted multiset replayed in every order on create_stog, Netlist and Module.create_stog under 8 "
+            "float embeddings, fresh and with stale roles; every observed call trace-validated by TLC (StogTrace)",
+            "TLC enumerates every list (all orders, repetitions, histories) of rectangles of a bounded lattice and proves each clause for the "
+            "specified algorithm; every multiset is run on the real code in every order and each observed call (report, order, roles, object "
+            "identity) is judged by TLC against the statement's clauses; random larger orthogons and near misses follow the same path.",
+            "bounded: 3x3 lattice <=3 rectangles, 3x2 <=4, 4x4 <=2 exhaustive; random to 8 rectangles on 40x40; floats sampled by 8 embeddings "
+            "(lists of 4: 2 embeddings per order); 'every other rectangle' read position-wise; which of two valid trunks is chosen is model conformance only",
+            "DESIGN.md 4 (C06)", ["Geometry", "Stog", "StogTrace"]),
+    "C13": ("TLA+ contract spec Force (per-iteration move <= temperature then clamp, fixed skipped, nothing else written; first-minimum scan over "
+            "12 spring constants) model-checked by TLC; TLC-generated inputs and seeded random netlists run through fruchterman_reingold_layout / "
+            "force_algorithm with harness-side wrappers (plot stub, layout wrapper); observations trace-validated by TLC (ForceTrace)",
+            "TLC proves that every behaviour of the iteration contract keeps fixed modules in place and all centres in the die, and that the scan "
+            "returns a minimal-cost candidate; every observed execution (per-iteration centres, returned netlist, the 12 tried layouts with the "
+            "library's own costs) is checked by TLC to be a behaviour of the contract and to satisfy fixed-unmoved, in-die, finite, "
+            "only-centres-changed, determinism and best-of.",
+            "contract model, the force computation itself is not predicted; per-iteration conformance is reported as model drift, property clauses "
+            "apply to returned netlists; 'not moved' to 1e-9 of the die size; determinism checked on two executions in one process; each case under "
+            "2 of 7 origin-0 embeddings; inputs restricted to netlists with at least one module with area and fixed rectangles inside the die",
+            "DESIGN.md 4 (C13)", ["Force", "ForceTrace"]),
+    "C15": ("TLA+ spec Strop (exact-cover declarative definition, shadow characterisation, pass-by-pass model of Strop/StropInstance) "
+            "model-checked by TLC; every TLC-drawn grid run through Strop(matrix) and, as traced vertex lists, through strop_decomposition + "
+            "Netlist under 8 float embeddings; observations trace-validated by TLC (StropTrace, recognition clauses from Stog)",
+            "TLC draws every 0/1 grid up to the bound and proves declarative = shadow = specified algorithm and partition/abutment of every "
+            "instance; the real is_strop and every offered instance, and the rectangles of strop_decomposition (area by shoelace, recognition "
+            "after loading as a module), are judged by TLC for every enumerated grid / simple polygon and for random grids to 8x8.",
+            "grids exhaustive to 16 cells (sides <=5; quick 12 cells, sides <=4), random to 8x8; polygons = outlines of enumerated grids <=12 "
+            "cells and of random grids, both orientations, Point and numpy vertices, 8 embeddings; a refusal assertion counts as 'no "
+            "decomposition'; 'trunk first' = any valid trunk first after loading",
+            "DESIGN.md 4 (C15)", ["Geometry", "Stog", "Strop", "StropTrace"]),
+    "C17": ("TLA+ spec Disc (integer case analysis on (r1,r2,D2), Heron margin of the acos domain, exact k*pi values, closed forms, Lipschitz "
+            "enclosure, sweep properties) model-checked by TLC; TLC-generated lattice offsets evaluated on circle_circle_intersection_area in both "
+            "argument orders under 8 float embeddings x +-3 ulp shifts; observed sweeps trace-validated by TLC (DiscTrace)",
+            "Every pair of radii 1..12 with every centre offset of a 25x25 lattice is enumerated by TLC; case partition, branch conditions, "
+            "acos-domain margin, exact values and enclosure consistency are TLC invariants; every real result (8 embeddings, -3..+3 ulp around "
+            "each lattice point, both argument orders) is judged by TLC for totality, symmetry, both bounds, exact/closed-form values, "
+            "monotonicity, chord bound and boundary continuity; random sweeps to radius 40 follow the same path.",
+            "accuracy of the lens formula at generic interior points is NOT decided (no acos in TLC; only an integer Lipschitz enclosure, "
+            "monotonicity and the drop bound there); floats sampled, not enumerated; tolerances 1e-5*rmax^2 (accuracy), 1e-6*rmax^2 (symmetry, bounds)",
+            "DESIGN.md 4 (C17), 6", ["Disc", "DiscTrace"]),
     "C18": ("TLA+ spec GeometryOps model-checked by TLC; TLC-generated cases replayed on Rectangle under 8 float "
             "embeddings; observed results trace-validated by TLC (GeometryTrace)",
             "Every operand pair / single rectangle of a bounded lattice with every public operation and argument is "
